@@ -191,7 +191,14 @@ pub fn make_vocab(s: &mut Src, p: &Profile) -> Vocab {
     } else if p.exec_cmds {
         exec_cmd_pool()
     } else {
-        plain_cmd_pool()
+        let mut v = plain_cmd_pool();
+        if p.special_lits {
+            // backslashes without a double quote, a trailing backslash, both at once
+            for t in ["printf '%s\\n' a b", "echo \\", "sed 's/\\\\/\"/' f"] {
+                v.push(CmdSpec { text: t.to_string(), lines: vec![] });
+            }
+        }
+        v
     };
     let nc = 1 + s.below(3);
     let mut cmds: Vec<CmdSpec> = vec![];
